@@ -444,6 +444,9 @@ const RARE_LEAVES: &[(char, &[&str])] = &[
             "a/b", "a & b", "a&&", "&", "50%", "a%b", "%str(%%)", "%str(&v%%)", "%str(%m(1)%%)", "%str('a'%%)", "%str(/*c*/%%)",
             "%str(%()", "%str(%))", "%str(a%'b)", "%str(%\")", "%nrstr(%%)", "%nrstr(&v%%)", "%nrstr(%m(;))", "a,b", "(a,b)", "a=b",
             "%str(%%%%)", "%str(%%%))", "%str(a%%)", "%str(%%a)",
+            // a macro statement inside a double-quoted literal inside %str / %nrstr (allowed there,
+            // an open-code recursion error in the other macro text contexts)
+            "%str(\"%let q=1;\")", "%str(\"a %put b; c\")", "%nrstr(call execute(\"%let x=1;\"))", "%str(x \"%global g;\" 'y')",
         ],
     ),
     (
